@@ -1,4 +1,5 @@
 import Dmn.Lemmas.TemporalLit
+import Dmn.Lemmas.TemporalGrammar
 
 /-!
 # C14 — temporal literals denote exactly what is written and print back
@@ -150,6 +151,113 @@ theorem literal_exact_offset (zk : List Char → Bool) (neg : Bool) (hh mm ss : 
 
 example : zoneP (fun _ => false) ['-', '1', '4', ':', '5', '9', ':', '5', '9'] = some (some (.offset (-53999))) := by
   decide
+
+/-! ## The parsers accept exactly the written grammar (every string)
+
+`DateText`, `TimeText`, `ZoneText` (`Dmn/Lemmas/TemporalGrammar.lean`) are the written grammar:
+character by character, digits `0`…`9` only.  Each theorem is an equivalence for *every* list of
+characters: what is accepted is in the grammar and denotes exactly the written fields, and every
+text of the grammar that names a calendar date / a time of day is accepted. -/
+
+/-- `date("…")`: accepted exactly when the text is `[-]YYYY[YYYYY]-MM-DD` (four to nine year digits,
+more than four only without a leading zero) naming a day of the proleptic Gregorian calendar; the
+value is the written year (with its sign), month and day. -/
+theorem date_literal_grammar (cs : List Char) (d : Date) :
+    parseDate cs = some d ↔ DateText cs d.y d.m d.d [] ∧ validDate d.y d.m d.d = true :=
+  parseDate_iff cs d
+
+example : parseDate ['-', '0', '0', '4', '4', '-', '0', '3', '-', '1', '5'] = some ⟨-44, 3, 15⟩ := by decide
+
+/-- The zone suffix: nothing, `Z`, `z`, `@name`, `±hh:mm`, `±hh:mm:ss` and nothing else. -/
+theorem zone_suffix_grammar (zk : List Char → Bool) (cs : List Char) (z : Option Zone) :
+    zoneP zk cs = some z ↔ ZoneText zk cs z :=
+  zoneP_iff zk cs z
+
+/-- `time("…")`: accepted exactly when the text is `hh:mm:ss[.d+][zone]` with hour < 24, minute < 60,
+second < 60 and a zone suffix that denotes a zone; the value has the written fields, the first nine
+fraction digits as nanoseconds. -/
+theorem time_literal_grammar (zk : List Char → Bool) (cs : List Char) (t : Time) :
+    parseTime zk cs = some t ↔
+      TimeText zk cs t.h t.mi t.s t.ns (some t.z) ∧ t.h < 24 ∧ t.mi < 60 ∧ t.s < 60 :=
+  parseTime_iff zk cs t
+
+example : parseTime (fun _ => false) ['0', '9', ':', '3', '0', ':', '1', '5', '.', '2', '5', '-', '0', '0', ':', '3', '0'] =
+    some ⟨9, 30, 15, 250000000, .offset (-1800)⟩ := by decide
+
+/-- `date and time("…")` (the `T` form): a date text, `T`, a time text, both valid. -/
+theorem datetime_literal_grammar (zk : List Char → Bool) (cs : List Char) (dt : DateTime) :
+    parseDateTime zk cs = some dt ↔
+      ∃ rest, DateText cs dt.date.y dt.date.m dt.date.d ('T' :: rest) ∧
+        TimeText zk rest dt.time.h dt.time.mi dt.time.s dt.time.ns (some dt.time.z) ∧
+        validDate dt.date.y dt.date.m dt.date.d = true ∧ dt.time.h < 24 ∧ dt.time.mi < 60 ∧ dt.time.s < 60 :=
+  parseDateTime_iff zk cs dt
+
+/-- A text with a character outside ASCII — a decimal digit of another script (Arabic-Indic,
+Devanagari, full-width, mathematical …), another dash, colon or full stop, a letter that only looks
+like `T` or `Z` — is not a date, time or date-and-time literal: null, wherever the character stands. -/
+theorem non_ascii_is_not_a_literal (zk : List Char → Bool) (cs : List Char) (c : Char) (hc : c ∈ cs)
+    (h : 128 ≤ c.toNat) :
+    bifDate cs = .null ∧ bifTime zk cs = .null ∧ bifDateTime zk cs = .null := by
+  have hd : parseDate cs = none := by
+    cases hp : parseDate cs with
+    | none => rfl
+    | some d =>
+      have := ((parseDate_iff cs d).1 hp).1.ascii Ascii.nil c hc
+      omega
+  have ht : parseTime zk cs = none := by
+    cases hp : parseTime zk cs with
+    | none => rfl
+    | some t =>
+      have := ((parseTime_iff zk cs t).1 hp).1.ascii c hc
+      omega
+  have hdt : parseDateTime zk cs = none := by
+    cases hp : parseDateTime zk cs with
+    | none => rfl
+    | some dt =>
+      obtain ⟨rest, hdate, htime, _⟩ := (parseDateTime_iff zk cs dt).1 hp
+      have := hdate.ascii (Ascii.cons (by decide) htime.ascii) c hc
+      omega
+  unfold bifDate bifTime bifDateTime
+  simp only [hd, ht, hdt, and_self]
+
+/-- The witnesses of the seeded change C14-15 (`\d` in the patterns): an Arabic-Indic five in the
+fraction, Arabic-Indic digits in the offset hours. -/
+example : bifTime (fun _ => true) ['1', '0', ':', '0', '0', ':', '0', '0', '.', Char.ofNat 0x665] = .null :=
+  (non_ascii_is_not_a_literal _ _ (Char.ofNat 0x665) (by simp) (by decide)).2.1
+
+example : bifDateTime (fun _ => true) ['2', '0', '2', '0', '-', '0', '9', '-', '2', '8', 'T', '1', '6', ':', '3', '7', ':',
+    '0', '9', '-', Char.ofNat 0x660, Char.ofNat 0x665, ':', '0', '0'] = .null :=
+  (non_ascii_is_not_a_literal _ _ (Char.ofNat 0x665) (by simp) (by decide)).2.2
+
+/-- `duration("…")`, years-and-months form: accepted exactly when the text is `[-]P[nY][nM]` (each
+present component a non-empty run of digits) and `ymFinish` — at least one component, `12·years +
+months` within `i64` — gives the value on the written components. -/
+theorem ymdur_literal_grammar (cs : List Char) (n : Int) :
+    parseYmDur cs = .ok n ↔ ∃ neg ys ms, YmText cs neg ys ms ∧ ymFinish neg ys ms = .ok n :=
+  parseYmDur_iff cs n
+
+example : YmText ['-', 'P', '1', 'Y', '2', 'M'] true (some ['1']) (some ['2']) ∧
+    ymFinish true (some ['1']) (some ['2']) = .ok (-14) := by
+  refine ⟨⟨rfl, ?_, ?_⟩, by decide⟩ <;>
+    (intro d hd; injection hd with hd; subst hd; exact ⟨by intro c hc; simp at hc; subst hc; decide, by simp⟩)
+
+/-- No text with a character outside ASCII is a years-and-months duration. -/
+theorem non_ascii_is_not_a_ym_duration (cs : List Char) (c : Char) (hc : c ∈ cs) (h : 128 ≤ c.toNat) (n : Int) :
+    parseYmDur cs ≠ .ok n := by
+  intro hp
+  obtain ⟨neg, ys, ms, ht, _⟩ := (parseYmDur_iff cs n).1 hp
+  have := ht.ascii c hc
+  omega
+
+/-- A sign in front of a field is not part of the grammar (`time("+9:30:15")`, the seeded change
+C14-16): the first character of a time text is a digit. -/
+theorem time_text_starts_with_two_digits (zk : List Char → Bool) (cs : List Char) (t : Time)
+    (h : parseTime zk cs = some t) :
+    ∃ a b r, cs = a :: b :: ':' :: r ∧ isDigit a = true ∧ isDigit b = true := by
+  obtain ⟨h1, h2, m1, m2, s1, s2, frac, ztext, e, dh1, dh2, _⟩ := ((parseTime_iff zk cs t).1 h).1
+  exact ⟨h1, h2, _, e, dh1, dh2⟩
+
+example : parseTime (fun _ => true) ['+', '9', ':', '3', '0', ':', '1', '5'] = none := by decide
 
 /-! ## What is not valid is rejected -/
 
